@@ -264,6 +264,16 @@ def shrink(runner, dline, q, key):
     return dline, q
 
 
+def ignored_sort_suffix(runner, dline, q, got):
+    """k when the (wrong) answer `got` is what the specification demands for the first k sort fields of the
+    query only, i.e. the store ignores the fields after the k-th (largest such k); None otherwise"""
+    for k in reversed(range(len(q["sort"]))):
+        _, modl, _ = runner.run([dline, build_query(dict(q, sort=q["sort"][:k]))])
+        if modl and len(modl) == 2 and fields(modl[1]).get("ok") == "1" and fields(modl[1])["spec"] == got:
+            return k
+    return None
+
+
 def main(argv):
     c = vlib.Check(PID, argv)
     c.cov["trusted_base"] = [
@@ -272,7 +282,7 @@ def main(argv):
         "(typed scalar filter nodes of the ast package) + the C02 models (comparators, setPaging, bounded tree)",
         "objectz comparators / setPaging / memSortingScanner are textual copies of the boltz ones and share their model",
         "extraction (ExtrOcamlBasic only) + extraction/c19_driver.ml + drv_common.ml",
-        "Go harness cmd/storageharness/c19.go + c19ext.go + c02.go (generators, filter printer, float literal conversion) and this comparison",
+        "Go harness cmd/storageharness/c19.go + c19ext.go + c19long.go + c02.go (generators, filter printer, float literal conversion) and this comparison",
     ]
     c.assumptions = [
         "object ids are unique; the bolt store holds the same values with the symbol's own field type",
@@ -357,6 +367,13 @@ def main(argv):
             what += "; minimal: `%s` on %s object(s): %s, expected %s (object store %s, bolt store %s)" % (
                 text, d2.split()[1], v2[1], v2[2], fields(impl2[1])["objectz"], fields(impl2[1])["boltz"])
             what += show_keys(d2, q2)
+            if side in ("objectz", "bolt") and len(q2["sort"]) > 1 and v2[1] not in ("ERR", "PANIC"):
+                k = ignored_sort_suffix(runner, d2, q2, v2[1])
+                if k is not None:
+                    what += "; this is the answer for the first %d of the %d sort fields only: the %s ignores `%s`" % (
+                        k, len(q2["sort"]), {"objectz": "object store", "bolt": "bolt store"}[side],
+                        ", ".join("%s %s" % ("id" if c0 == "id" else (["fs", "fi", "fj", "ff", "fb", "ft", "keep", "grp"][int(c0)]), "asc" if a == "a" else "desc")
+                                  for c0, _, a in q2["sort"][k:]))
         c.violation(key, what, dict(case=d2 + "\n" + build_query(q2), query_text=text,
                                     impl=impl2[1] if impl2 else i, model=modl2[1] if modl2 else m,
                                     original_case=dline + "\n" + case, side=side))
@@ -374,7 +391,13 @@ def main(argv):
                      "(2) every atom kind x operator x column once unpaged and once with a random sort and page "
                      "(= != < <= > >= null-tests contains/icontains in between bool-symbol, negated forms); "
                      "(3) random and/or/not combinations (depth <= 3) x random 0..5-key sorts x random grid points; "
-                     "(4) a few filters outside the model (both stores must agree). "
+                     "(4) a few filters outside the model (both stores must agree); "
+                     "(L) random sort specifications of 6..12 fields whose leading fields repeat one to three (mostly low-cardinality) columns. "
+                     "(LT) collections made of tie blocks (c19long.go: rows agreeing on up to seven columns - null cells included -, the other "
+                     "columns arranged against the id order; one fixed collection + random ones) under specifications built against them: "
+                     "k = 1..11 tying fields (repeated fields, mixed directions) in front of every deciding tail (a free column asc / desc, id desc, "
+                     "a free column with ties + a second one, id followed by dead fields), id inside / in front of the first five of more than "
+                     "five fields; unpaged and with page cuts inside a tie block. "
                      "Collections of extreme field values (c19ext.go: one fixed collection holding every pool value + random ones; "
                      "datetimes over the whole time.Time range incl. the int64 ns/us/ms boundaries 1677/2262, the zero time, 2400, 9999-12-31, year 10000, "
                      "sub-second neighbours; int64 min/max, +-2^53, 2^31/2^32; float +-Inf/+-Max/subnormals/+-0/float32 limits/1-ulp neighbours; "
